@@ -198,6 +198,8 @@ public:
 	}
 	void operator=(const Thread& t)
 	{
+		if (this == &t)
+			return;
 		_threadFinished = t._threadFinished;
 		_thread = t._thread;
 		const_cast<Thread&>(t)._thread = 0;
@@ -286,8 +288,11 @@ public:
 #endif
 		while (!s.ready) {}
 	}
+	/**
+	Starts function or lambda `f` as thread `t` and returns `t`, which is the object to `join()` and to ask `finished()`
+	*/
 	template<class Func>
-	static Thread start(const Func& f, Thread* t)
+	static Thread& start(const Func& f, Thread* t)
 	{
 		Context<Func> s = { f, t, false, 0, 0, 0 };
 		t->run((Function_)Thread::beginf<Func>, (void*)&s);
